@@ -506,4 +506,8 @@ func Run(c *hx.Ctx) {
 	rlCases(c)
 	// several frames per read through the real Dispatch with a receiver that keeps what it is handed (ctx.go)
 	ctxCases(c)
+	// decoded content of every frame vs the same frame decoded alone (pkt.go)
+	pktCases(c)
+	// HTTP/2: what the stream layer delivers does not alias the read buffer (h2own.go)
+	h2ownCases(c)
 }
